@@ -18,6 +18,7 @@
 #include "runner.hpp"
 
 #include <cerrno>
+#include <csetjmp>
 #include <fcntl.h>
 #include <sys/stat.h>
 
@@ -43,6 +44,8 @@ struct Ambient {
     void hit(const char *n) { calls++; by[n]++; }
 } AMB;
 
+sigjmp_buf g_term_env;
+volatile int g_term_armed = 0;
 bool g_kernel_mode = false;      // the byte stream is served through getrandom()/read() instead of the vtable
 bool g_getrandom_enosys = false; // kernel without getrandom(): forces the /dev/urandom path
 bool g_internal = false;         // the opt-in internal generator (ChaCha20-based, keyed from the kernel) is the installed source
@@ -92,6 +95,14 @@ ssize_t h_read(int fd, void *buf, size_t n) {
     if (!g_kernel_mode) { AMB.hit("read_dev_random"); AMB.rng.fill(buf, n); return (ssize_t) n; }
     if (g_kfault_pct && g_kfault.below(100) < g_kfault_pct) {
         unsigned c = (unsigned) g_kfault.below(4);
+        // rarely: the device is at end-of-file / fails hard.  The only acceptable reactions are terminating (the library
+        // calls sodium_misuse) or delivering a fully covered result; silently returning a partly filled secret is not
+        if (g_term_armed && g_kfault.below(25) == 0) { // only inside an operation, where termination is observed
+            bool eof = g_kfault.chance(1, 2);
+            g_kfaults_fired[eof ? "read_eof" : "read_eio"]++;
+            if (eof) return 0;
+            errno = EIO; return -1;
+        }
         if (c == 0) { g_kfaults_fired["read_eintr"]++; errno = EINTR; return -1; }
         if (c == 1) { g_kfaults_fired["read_eagain"]++; errno = EAGAIN; return -1; }
         if (n > 1) { // short read: anything from 1 to n-1 bytes
@@ -128,6 +139,11 @@ uint32_t h_arc4random(void) { AMB.hit("arc4random"); return AMB.rng.u32(); }
 void h_arc4random_buf(void *b, size_t n) { AMB.hit("arc4random_buf"); AMB.rng.fill(b, n); }
 int h_rand(void) { AMB.hit("rand"); return (int) AMB.rng.below(RAND_MAX); }
 long h_random(void) { AMB.hit("random"); return (long) AMB.rng.below(RAND_MAX); }
+
+// termination (sodium_misuse -> abort) is an observation, not the end of the simulation
+void h_abort(void) { if (g_term_armed) siglongjmp(g_term_env, 1); }
+int h_raise(int sig) { if (g_term_armed) siglongjmp(g_term_env, 2); return simos_real_raise(sig); }
+void h_assert_fail(const char *, const char *, unsigned, const char *) { if (g_term_armed) siglongjmp(g_term_env, 3); }
 
 // ---------------- plan ----------------
 enum Kind {
@@ -168,6 +184,7 @@ struct OpOut {
     size_t req_first = 0, req_last = 0; // range in the request log
     uint64_t ambient_calls = 0;
     std::string invalid;       // per-execution validity failure (class|locus|detail)
+    int terminated = 0;        // 1 abort (sodium_misuse), 2 raise, 3 failed assert
 };
 
 struct SeqResult { std::vector<OpOut> ops; std::vector<RngRequest> log; std::map<std::string, uint64_t> ambient; bool exhausted = false; };
@@ -366,7 +383,8 @@ struct Exec {
             OpOut o;
             o.start = g_src.pos; o.req_first = g_src.log.size();
             uint64_t amb0 = AMB.calls;
-            run_op(op, o, prefill);
+            if (sigsetjmp(g_term_env, 1) == 0) { g_term_armed = 1; run_op(op, o, prefill); g_term_armed = 0; }
+            else { g_term_armed = 0; simos_reset_thread(); o.terminated = 1; o.out.clear(); o.invalid.clear(); }
             o.end = g_src.pos; o.req_last = g_src.log.size();
             o.ambient_calls = AMB.calls - amb0;
             sr.ops.push_back(o);
@@ -416,6 +434,7 @@ struct Exec {
         SeqResult base = run_seq(mix64(plan.content_seed, 1), 0xAA, -1, 0);
         for (auto &kv : g_kfaults_fired) res.count("fault." + kv.first, kv.second);
         bool faults_fired = !g_kfaults_fired.empty();
+        bool hard_fault_fired = g_kfaults_fired.count("read_eof") || g_kfaults_fired.count("read_eio");
         g_kfaults_fired.clear();
         // per-execution validity + exact oracles on the base execution
         for (size_t i = 0; i < plan.ops.size() && !res.violated; i++) {
@@ -424,6 +443,12 @@ struct Exec {
             res.steps++;
             dg.add((uint64_t) op.kind); dg.add((uint64_t) op.arg); dg.add(o.out.data(), o.out.size()); dg.add((uint64_t) (o.end - o.start)); dg.add((uint64_t) (o.req_last - o.req_first));
             res.count(std::string("probe.op.") + kind_name[op.kind]);
+            if (o.terminated) {
+                // legitimate only as the reaction to a hard failure of the entropy device injected into this very op
+                res.count("probe.terminated_on_device_failure");
+                if (!hard_fault_fired) res.fail("terminated", kind_name[op.kind], std::string(kind_name[op.kind]) + " terminated the process (sodium_misuse/abort) although the entropy source did not fail", (int) i);
+                continue;
+            }
             if (!o.invalid.empty()) {
                 size_t a = o.invalid.find('|'), b = o.invalid.find('|', a + 1);
                 res.fail(o.invalid.substr(0, a), o.invalid.substr(a + 1, b - a - 1), o.invalid.substr(b + 1), (int) i);
@@ -482,6 +507,8 @@ struct Exec {
             g_kfaults_fired.clear();
             for (size_t i = 0; i < plan.ops.size() && !res.violated; i++) {
                 const OpOut &a = base.ops[i], &b = rep.ops[i];
+                if (a.terminated != b.terminated) { res.fail("not-reproducible", kind_name[plan.ops[i].kind], "termination is not reproducible", (int) i); break; }
+                if (a.terminated) continue;
                 bool same_reqs = a.start == b.start && a.end == b.end && (a.req_last - a.req_first) == (b.req_last - b.req_first);
                 if (a.out != b.out || a.rc != b.rc || !same_reqs) {
                     if (getenv("C18_DEBUG")) fprintf(stderr, "DBG op %zu base[%zu,%zu) reqs %zu out %s | replay[%zu,%zu) reqs %zu out %s\n", i, a.start, a.end, a.req_last - a.req_first, hexbytes(a.out.data(), std::min<size_t>(a.out.size(), 16)).c_str(), b.start, b.end, b.req_last - b.req_first, hexbytes(b.out.data(), std::min<size_t>(b.out.size(), 16)).c_str());
@@ -500,7 +527,9 @@ struct Exec {
             const Op &op = plan.ops[fi];
             size_t need = secret_len(op);
             const OpOut &a = base.ops[fi];
-            if (internal && need && a.out.size() >= 16) {
+            if (a.terminated) {
+                // nothing to compare: the op ended in sodium_misuse() because the entropy device failed
+            } else if (internal && need && a.out.size() >= 16) {
                 // flip one bit of the generator's key (the first 32 bytes this run's kernel served): every later
                 // output must change
                 // the key in force for this op = the last 32 bytes the kernel served up to the end of the op (a stir or a
@@ -530,7 +559,7 @@ struct Exec {
                 // stream bytes and nothing can be said about its result; only compare when consumption is unchanged
                 bool same_consumption = fl.ops[fi].start == a.start && fl.ops[fi].end == a.end;
                 if (!same_consumption) res.count("probe.flip_changed_consumption");
-                if (!res.violated && same_consumption && fl.ops[fi].out == a.out)
+                if (!res.violated && same_consumption && !fl.ops[fi].terminated && fl.ops[fi].out == a.out)
                     res.fail("secret-ignores-source-bytes", kind_name[op.kind], std::string(kind_name[op.kind]) + ": flipping bit " + std::to_string(pick.second) + " of byte " + std::to_string(pick.first) + " of the " + std::to_string(need) + " bytes served for the secret did not change the result", (int) fi);
             }
         }
@@ -584,6 +613,7 @@ struct C18 {
         simos_hooks.getrandom_ = h_getrandom; simos_hooks.getentropy_ = h_getentropy; simos_hooks.open_ = h_open; simos_hooks.read_ = h_read;
         simos_hooks.close_ = h_close; simos_hooks.fstat_ = h_fstat; simos_hooks.fcntl_ = h_fcntl; simos_hooks.poll_ = h_poll;
         simos_hooks.gettimeofday_ = h_gettimeofday; simos_hooks.getpid_ = h_getpid; simos_hooks.time_ = h_time; simos_hooks.clock_gettime_ = h_clock_gettime;
+        simos_hooks.abort_ = h_abort; simos_hooks.raise_ = h_raise; simos_hooks.assert_fail_ = h_assert_fail;
         simos_hooks.arc4random_ = h_arc4random; simos_hooks.arc4random_buf_ = h_arc4random_buf; simos_hooks.rand_ = h_rand; simos_hooks.random_ = h_random;
         g_src.reset(0xb007);
         AMB.reset(7);
